@@ -86,9 +86,20 @@ pub fn expand_tokens(ts: proc_macro2::TokenStream) -> Expansion {
     match r {
         Ok(Ok(t)) => Expansion::Ok(t.to_string()),
         Ok(Err(e)) => {
-            // the diagnostic must carry a span and a message (C17); obtaining them must not panic
-            let msgs: Vec<String> = e.into_iter().map(|x| x.to_string()).collect();
-            Expansion::Err(msgs.join(" | "))
+            // the diagnostic must carry a span and a message (C17); turning it into the compile_error!
+            // tokens the real macro would emit must not panic either
+            IN_EXPAND.with(|c| c.set(true));
+            let r2 = catch_unwind(AssertUnwindSafe(|| {
+                let toks = e.to_compile_error().to_string();
+                let msgs: Vec<String> = e.into_iter().map(|x| x.to_string()).collect();
+                (toks, msgs)
+            }));
+            IN_EXPAND.with(|c| c.set(false));
+            match r2 {
+                Ok((toks, msgs)) if !toks.is_empty() && msgs.iter().all(|m| !m.is_empty()) => Expansion::Err(msgs.join(" | ")),
+                Ok(_) => Expansion::Panic("diagnostic without message or tokens".into()),
+                Err(_) => Expansion::Panic(format!("while rendering the diagnostic: {}", LAST_PANIC.with(|p| p.borrow().clone()))),
+            }
         },
         Err(_) => Expansion::Panic(LAST_PANIC.with(|p| p.borrow().clone())),
     }
